@@ -631,3 +631,227 @@ Theorem delete_incompatible_refuted :
 Proof.
   exists refute_ops. eexists. exists 20000. split; [vm_compute; reflexivity|]. vm_compute. repeat split.
 Qed.
+
+(* ================================================================================================ *)
+(* heap descriptors are live blocks of the backing heap                                              *)
+(* ================================================================================================ *)
+Definition descs_Inv (s : state) : Prop := desc_Inv s /\ NoDup (map snd (descs s)).
+
+(* operations that do not abandon pages on a live thread and do not free a descriptor behind the
+   allocator's back: delete/destroy only of non-backing heaps that are compatible with the backing
+   heap (destroy: or created with mi_heap_new), free only of blocks the program allocated *)
+Definition op_safe (s : state) (o : heap_op) : bool :=
+  match o with
+  | OpFree b _ => negb (inb b (map snd (descs s)))
+  | OpDelete h =>
+    match get_heap s h, get_heap s (backing s) with
+    | Some hp, Some bp => negb (h =? backing s) && heaps_compatible bp hp
+    | _, _ => true
+    end
+  | OpDestroy h =>
+    match get_heap s h, get_heap s (backing s) with
+    | Some hp, Some bp => negb (h =? backing s) && (no_reclaim hp || heaps_compatible bp hp)
+    | _, _ => true
+    end
+  | _ => true
+  end.
+
+Fixpoint heap_run_safe (s : state) (ops : list heap_op) : option state :=
+  match ops with
+  | [] => Some s
+  | o :: r => if op_safe s o then match heap_step s o with Some s' => heap_run_safe s' r | None => None end else None
+  end.
+
+Lemma block_malloc_spec s h bin b c s' : heap_Inv s -> block_malloc s h bin b c = Some s' ->
+  (forall q qi, get_page s q = Some qi ->
+     exists qi', get_page s' q = Some qi' /\ pheap qi' = pheap qi /\ incl (blocks qi) (blocks qi')) /\
+  (exists p pi', get_page s' p = Some pi' /\ In b (blocks pi') /\ pheap pi' = Some h) /\
+  descs s' = descs s /\ backing s' = backing s /\ heap_ids s' = heap_ids s /\ ~ In b (live_blocks s).
+Proof.
+  intros I. unfold block_malloc. destruct (get_heap s h) as [hp|] eqn:H; [|discriminate].
+  destruct (bin <? MI_BIN_FULL) eqn:Hbin; [|discriminate]. apply N.ltb_lt in Hbin. cbn [negb].
+  destruct (inb b (live_blocks s)) eqn:Hb; [discriminate|]. apply inb_false in Hb.
+  destruct c as [p capb|p start size capb].
+  - destruct (get_page s p) as [pi|] eqn:G; [|discriminate].
+    destruct (inb p (qget (queues hp) bin) && _ && _ && _ && _) eqn:C; [|discriminate].
+    intros K. inversion K; subst s'. clear K.
+    apply andb_true_iff in C; destruct C as [C _]. apply andb_true_iff in C; destruct C as [C _].
+    apply andb_true_iff in C; destruct C as [C _]. apply andb_true_iff in C; destruct C as [C _].
+    apply inb_spec in C.
+    destruct (hi_queued s I _ _ _ _ H C) as [pi0 [G0 [E [F Pb]]]]. rewrite G in G0. inversion G0; subst pi0.
+    assert (bin <> MI_BIN_FULL) as Hne by lia. specialize (Pb Hne).
+    assert (page_qbin pi = bin) as Eq. { unfold page_qbin. rewrite F. apply N.eqb_neq in Hne. rewrite Hne. exact Pb. }
+    rewrite <- Eq.
+    destruct (move_to_front_facts s h pi p I G E) as [[pi1 [G1 [A1 [A2 [A3 [A4 [A5 [A6 A7]]]]]]]] [OTHER [B1 [B2 [B3 [B4 [B5 [B6 [B7 _]]]]]]]]].
+    set (s1 := move_to_front s h (page_qbin pi) p) in *.
+    unfold home_add. split; [|split; [|repeat split; hs; auto]].
+    + intros q qi Gq. hs. destruct (N.eqb_spec q p) as [X|X].
+      * subst q. rewrite G in Gq. inversion Gq; subst qi. rewrite G1. cbn. eexists. split; [reflexivity|]. cbn.
+        split; [exact A1|]. intros x Hx. right. exact Hx.
+      * rewrite OTHER by exact X. exists qi. split; [exact Gq|]. split; [reflexivity|apply incl_refl].
+    + exists p. hs. rewrite N.eqb_refl, G1. cbn. eexists. split; [reflexivity|]. cbn. split; [left; reflexivity|congruence].
+  - destruct (get_page s p) as [pi|] eqn:G; [discriminate|].
+    destruct (_ && _); [|discriminate]. intros K. inversion K; subst s'. clear K.
+    unfold home_add. split; [|split; [|repeat split; hs; auto]].
+    + intros q qi Gq. hs. rewrite get_page_queue_push. hs. assert (q <> p) as X by (intros ->; congruence).
+      apply N.eqb_neq in X. rewrite X. rewrite N.eqb_sym, X. exists qi. split; [exact Gq|]. split; [reflexivity|apply incl_refl].
+    + exists p. hs. rewrite get_page_queue_push. hs. rewrite !N.eqb_refl. cbn. eexists. split; [reflexivity|].
+      cbn. split; [left; reflexivity|reflexivity].
+    + rewrite heap_ids_queue_push. reflexivity.
+Qed.
+
+Lemma nodup_snd_inj {A B} (l : list (A * B)) a1 a2 b : NoDup (map snd l) -> In (a1, b) l -> In (a2, b) l -> a1 = a2.
+Proof.
+  induction l as [|[x y] r IH]; cbn; [tauto|]. intros ND [E1|H1] [E2|H2]; inversion ND; subst.
+  - congruence.
+  - inversion E1; subst. exfalso. apply H3. apply in_map_iff. exists (a2, b). auto.
+  - inversion E2; subst. exfalso. apply H3. apply in_map_iff. exists (a1, b). auto.
+  - apply IH; assumption.
+Qed.
+
+Lemma NoDup_map_snd_filter {A B} (f : A * B -> bool) (l : list (A * B)) : NoDup (map snd l) -> NoDup (map snd (filter f l)).
+Proof.
+  induction l as [|x r IH]; cbn; intros H; [constructor|]. inversion H; subst. destruct (f x); cbn; [|apply IH; assumption].
+  constructor; [|apply IH; assumption]. intros K. apply H2. apply in_map_iff in K. destruct K as [y [E Hy]].
+  apply in_map_iff. exists y. split; [exact E|]. apply filter_In in Hy. tauto.
+Qed.
+
+Lemma desc_inv_preserved s o s' : heap_Inv s -> descs_Inv s -> op_safe s o = true -> heap_step s o = Some s' -> descs_Inv s'.
+Proof.
+  intros I [DI DN] SAFE ST. pose proof (heap_inv_preserved s o s' I ST) as I'.
+  assert (forall s1, heap_Inv s1 -> descs s1 = descs s -> backing s1 = backing s ->
+            (forall q qi x, get_page s q = Some qi -> In x (blocks qi) -> In x (map snd (descs s)) ->
+               exists qi', get_page s1 q = Some qi' /\ pheap qi' = pheap qi /\ In x (blocks qi')) -> descs_Inv s1) as KEEP.
+  { intros s1 _ E1 E2 HK. split; [|rewrite E1; exact DN]. intros k dk Hin. rewrite E1 in Hin.
+    destruct (DI k dk Hin) as [p [pi [G [Hb E]]]].
+    destruct (HK p pi dk G Hb ltac:(apply in_map_iff; exists (k, dk); auto)) as [pi' [G' [E' Hb']]].
+    exists p, pi'. rewrite E2. split; [exact G'|]. split; [exact Hb'|congruence]. }
+  destruct o; cbn [heap_step op_safe] in *.
+  - (* new *)
+    unfold heap_new in ST. destruct (inb k (heap_ids s)) eqn:Hk; [discriminate|].
+    destruct (block_malloc s (backing s) desc_bin d c) as [s1|] eqn:M; [|discriminate]. inversion ST; subst s'. clear ST.
+    destruct (block_malloc_spec _ _ _ _ _ _ I M) as [PK [[p [pi' [Gp [Hd Ep]]]] [E1 [E2 [E3 ND]]]]].
+    split.
+    + intros k' dk [X|Hin].
+      * inversion X; subst. exists p, pi'. cbn. rewrite E2. auto.
+      * cbn in Hin. rewrite E1 in Hin. destruct (DI k' dk Hin) as [q [qi [G [Hb E]]]].
+        destruct (PK q qi G) as [qi' [G' [E' Inc]]]. exists q, qi'. cbn. rewrite E2. split; [exact G'|]. split; [apply Inc; exact Hb|congruence].
+    + cbn. rewrite E1. constructor; [|exact DN]. intros X. apply in_map_iff in X. destruct X as [[k' dk] [Y Hin]]. cbn in Y. subst dk.
+      destruct (DI k' d Hin) as [q [qi [G [Hb _]]]]. apply ND. apply live_blocks_in. exists q, qi. split; [apply get_page_in; exact G|exact Hb].
+  - (* malloc *)
+    destruct (block_malloc_spec _ _ _ _ _ _ I ST) as [PK [_ [E1 [E2 _]]]]. apply KEEP; auto.
+    intros q qi x G Hx _. destruct (PK q qi G) as [qi' [G' [E' Inc]]]. exists qi'. auto.
+  - (* free *)
+    apply negb_true_iff, inb_false in SAFE. destruct (block_free_spec _ _ _ _ I ST) as [p [pi [G [Hb FR]]]].
+    apply KEEP; [exact I'|apply (fr_descs _ _ _ _ _ FR)|apply (fr_backing _ _ _ _ _ FR)|].
+    intros q qi x Gq Hx Hd. apply (freed_page_keeps s s' b p pi q qi x I G Hb FR Gq Hx). intros ->. contradiction.
+  - (* to_full *)
+    unfold to_full_op in ST. destruct (get_page s p) as [pi|] eqn:G; [|discriminate]. destruct (pheap pi) as [h|] eqn:E; [|discriminate].
+    destruct (in_full pi) eqn:F; [discriminate|]. inversion ST; subst s'. apply KEEP; auto; try (unfold page_to_full; rewrite G, E, F; reflexivity).
+    intros q qi x Gq Hx _. unfold page_to_full. rewrite G, E, F.
+    destruct (enqueue_from_facts s h MI_BIN_FULL (pbin pi) p) as [Q1 _]. rewrite Q1.
+    destruct (N.eqb_spec q p); [subst; rewrite Gq; cbn; eexists; split; [reflexivity|auto]|eauto].
+  - (* empty page freed *)
+    unfold empty_page_free in ST. destruct (get_page s p) as [pi|] eqn:G; [|discriminate]. destruct (pheap pi) as [h|] eqn:E; [|discriminate].
+    destruct (is_nil (blocks pi)) eqn:N; [|discriminate]. inversion ST; subst s'. apply is_nil_spec in N.
+    apply KEEP; auto. intros q qi x Gq Hx _. destruct (page_free_facts s h pi p) as [Q1 _]. rewrite Q1.
+    destruct (N.eqb_spec q p) as [X|X]; [subst; rewrite G in Gq; inversion Gq; subst; rewrite N in Hx; destruct Hx|eauto].
+  - (* delete *)
+    destruct (get_heap s h) as [hp|] eqn:H.
+    2: { unfold heap_delete in ST. rewrite H in ST. inversion ST; subst. split; assumption. }
+    destruct (in_ids_get_heap s _ (hi_backing s I)) as [bp B]. rewrite B in SAFE.
+    apply andb_true_iff in SAFE. destruct SAFE as [S1 S2]. apply negb_true_iff, N.eqb_neq in S1.
+    destruct (delete_preserves_live s h hp bp s' I H B S1 S2 ST) as [d [D [P [HB [_ [_ [_ [_ [EB [ED _]]]]]]]]]].
+    split; [|rewrite ED; apply NoDup_map_snd_filter; exact DN].
+    intros k dk Hin. rewrite ED in Hin. apply filter_In in Hin. destruct Hin as [Hin Hk]. cbn in Hk. apply negb_true_iff, N.eqb_neq in Hk.
+    destruct (DI k dk Hin) as [q [qi [G [Hb E]]]].
+    assert (dk <> d) as Hd. { intros ->. apply Hk. eapply nodup_snd_inj; eauto. apply find_desc_some. exact D. }
+    assert (In dk (live_blocks s')) as L'.
+    { assert (In dk (live_blocks s)) as L by (apply live_blocks_in; exists q, qi; split; [apply get_page_in; exact G|exact Hb]).
+      apply (Permutation_in _ P) in L. destruct L as [X|X]; [congruence|exact X]. }
+    destruct (inv_live_page s' dk I' L') as [q' [qi' [G' Hb']]]. exists q', qi'. split; [exact G'|]. split; [exact Hb'|].
+    rewrite <- (live_heap_of_block s' dk q' qi' I' G' Hb'), (HB dk L'), (live_heap_of_block s dk q qi I G Hb), E, EB.
+    assert (opt_eqb (Some (backing s)) (Some h) = false) as -> by (cbn; apply N.eqb_neq; congruence). reflexivity.
+  - (* destroy *)
+    destruct (get_heap s h) as [hp|] eqn:H.
+    2: { unfold heap_destroy in ST. rewrite H in ST. inversion ST; subst. split; assumption. }
+    destruct (in_ids_get_heap s _ (hi_backing s I)) as [bp B]. rewrite B in SAFE.
+    apply andb_true_iff in SAFE. destruct SAFE as [S1 S2]. apply negb_true_iff, N.eqb_neq in S1.
+    destruct (no_reclaim hp) eqn:NR.
+    + destruct (destroy_exactly_own s h hp s' I H NR S1 ST) as [d [pd [pid [D [_ [_ [_ [_ [_ [_ [KP [_ [_ [_ [_ [EB [ED _]]]]]]]]]]]]]]]]].
+      split; [|rewrite ED; apply NoDup_map_snd_filter; exact DN].
+      intros k dk Hin. rewrite ED in Hin. apply filter_In in Hin. destruct Hin as [Hin Hk]. cbn in Hk. apply negb_true_iff, N.eqb_neq in Hk.
+      destruct (DI k dk Hin) as [q [qi [G [Hb E]]]].
+      assert (dk <> d) as Hd. { intros ->. apply Hk. eapply nodup_snd_inj; eauto. apply find_desc_some. exact D. }
+      destruct (KP q qi dk G ltac:(rewrite E; congruence) Hb Hd) as [qi' [G' [E' Hb']]].
+      exists q, qi'. rewrite EB. split; [exact G'|]. split; [exact Hb'|congruence].
+    + cbn [orb] in S2. unfold heap_destroy in ST. rewrite H, NR in ST.
+      destruct (delete_preserves_live s h hp bp s' I H B S1 S2 ST) as [d [D [P [HB [_ [_ [_ [_ [EB [ED _]]]]]]]]]].
+      split; [|rewrite ED; apply NoDup_map_snd_filter; exact DN].
+      intros k dk Hin. rewrite ED in Hin. apply filter_In in Hin. destruct Hin as [Hin Hk]. cbn in Hk. apply negb_true_iff, N.eqb_neq in Hk.
+      destruct (DI k dk Hin) as [q [qi [G [Hb E]]]].
+      assert (dk <> d) as Hd. { intros ->. apply Hk. eapply nodup_snd_inj; eauto. apply find_desc_some. exact D. }
+      assert (In dk (live_blocks s')) as L'.
+      { assert (In dk (live_blocks s)) as L by (apply live_blocks_in; exists q, qi; split; [apply get_page_in; exact G|exact Hb]).
+        apply (Permutation_in _ P) in L. destruct L as [X|X]; [congruence|exact X]. }
+      destruct (inv_live_page s' dk I' L') as [q' [qi' [G' Hb']]]. exists q', qi'. split; [exact G'|]. split; [exact Hb'|].
+      rewrite <- (live_heap_of_block s' dk q' qi' I' G' Hb'), (HB dk L'), (live_heap_of_block s dk q qi I G Hb), E, EB.
+      assert (opt_eqb (Some (backing s)) (Some h) = false) as -> by (cbn; apply N.eqb_neq; congruence). reflexivity.
+  - (* set default *)
+    inversion ST; subst s'. unfold heap_set_default. destruct (get_heap s h); split; assumption.
+Qed.
+
+Theorem heap_struct_is_backing_block k tg ar ops s :
+  heap_run_safe (heap_init k tg ar) ops = Some s ->
+  heap_Inv s /\
+  forall h, In h (heap_ids s) -> h <> backing s ->
+    exists d p pi, find_desc (descs s) h = Some d /\ get_page s p = Some pi /\ In d (blocks pi) /\
+                   pheap pi = Some (backing s) /\ In d (live_blocks s) /\ heap_contains_block s (backing s) d = true.
+Proof.
+  assert (forall ops s0 s, heap_Inv s0 -> descs_Inv s0 -> heap_run_safe s0 ops = Some s -> heap_Inv s /\ descs_Inv s) as RUN.
+  { induction ops as [|o r IH]; intros s0 s1 I D; cbn [heap_run_safe].
+    - intros K. inversion K; subst. auto.
+    - destruct (op_safe s0 o) eqn:SF; [|discriminate]. destruct (heap_step s0 o) as [s2|] eqn:ST; [|discriminate].
+      apply IH; [eapply heap_inv_preserved; eauto|eapply desc_inv_preserved; eauto]. }
+  intros R. destruct (RUN ops _ s (heap_inv_init k tg ar) ltac:(split; [intros h d []|constructor]) R) as [I [DI _]].
+  split; [exact I|]. intros h Hin Hne.
+  assert (In h (map fst (descs s))) as Hd by (apply (hi_descs s I); auto).
+  destruct (find_desc (descs s) h) as [d|] eqn:D; [|apply find_desc_none in D; contradiction].
+  destruct (DI h d (find_desc_some _ _ _ D)) as [p [pi [G [Hb E]]]].
+  assert (In d (live_blocks s)) as L by (apply live_blocks_in; exists p, pi; split; [apply get_page_in; exact G|exact Hb]).
+  exists d, p, pi. repeat split; auto.
+  apply (proj1 (contains_block_spec s (backing s) d I L (hi_backing s I))). eauto.
+Qed.
+
+(* non-vacuity of delete_preserves_live / destroy_exactly_own: under the invariants the operations succeed *)
+Theorem delete_succeeds s h hp bp : heap_Inv s -> descs_Inv s -> get_heap s h = Some hp ->
+  get_heap s (backing s) = Some bp -> h <> backing s -> heaps_compatible bp hp = true ->
+  exists s', heap_delete s h = Some s'.
+Proof.
+  intros I [DI _] H B Hne C. unfold heap_delete. rewrite H, B, C. apply N.eqb_neq in Hne. rewrite Hne. cbn [negb andb].
+  apply N.eqb_neq in Hne. assert (backing s <> h) as Hne' by congruence.
+  pose proof (heap_absorb_spec s (backing s) h bp hp I Hne' B H) as AB.
+  pose proof (absorbed_inv s _ (backing s) h bp hp I Hne' B H AB) as Im.
+  set (sm := home_move (heap_absorb s (backing s) h) h (backing s)) in *.
+  destruct AB as [_ [Qf [F1 _]] _ PG [S1 S2 S3 S4 S5 S6 S7]].
+  rewrite heap_free_unfold. change (backing sm) with (backing (heap_absorb s (backing s) h)). rewrite S5.
+  apply N.eqb_neq in Hne. rewrite Hne. apply N.eqb_neq in Hne.
+  change (get_heap sm h) with (get_heap (heap_absorb s (backing s) h) h). rewrite F1.
+  change (descs sm) with (descs (heap_absorb s (backing s) h)). rewrite S6.
+  assert (In h (map fst (descs s))) as Hd by (apply (hi_descs s I); split; [eapply get_heap_in_ids; eauto|exact Hne]).
+  destruct (find_desc (descs s) h) as [d|] eqn:D; [|apply find_desc_none in D; contradiction].
+  destruct (DI h d (find_desc_some _ _ _ D)) as [p [pi [G [Hb E]]]].
+  assert (forall q qi, get_page sm q = Some qi -> pheap qi <> Some h) as NP.
+  { intros q qi Gq Eq. change (get_page sm q) with (get_page (heap_absorb s (backing s) h) q) in Gq. rewrite PG in Gq.
+    destruct (get_page s q) as [q0|]; [|discriminate]. cbn in Gq. inversion Gq; subst qi.
+    destruct (opt_eqb (pheap q0) (Some h)) eqn:X; [cbn in Eq; congruence|rewrite Eq, opt_eqb_refl in X; discriminate]. }
+  pose proof (unlink_heap_inv sm h Im ltac:(change (backing sm) with (backing (heap_absorb s (backing s) h)); rewrite S5; exact Hne) NP) as Iu.
+  apply (freeable_free_ok (unlink_heap sm h) d true).
+  assert (get_page (unlink_heap sm h) p = Some pi) as Gu.
+  { destruct (unlink_frames sm h) as [Up _]. unfold get_page. rewrite Up.
+    change (find_page (pages sm) p) with (get_page (heap_absorb s (backing s) h) p). rewrite PG, G. cbn. rewrite E.
+    assert (opt_eqb (Some (backing s)) (Some h) = false) as -> by (cbn; apply N.eqb_neq; congruence). reflexivity. }
+  apply live_block_freeable; [exact Iu| |].
+  - apply live_blocks_in. exists p, pi. split; [apply get_page_in; exact Gu|exact Hb].
+  - rewrite (live_heap_of_block _ d p pi Iu Gu Hb), E. discriminate.
+Qed.
